@@ -142,7 +142,18 @@ def render(cell):
     loop = cell.get("loop", 1) if cell["stratum"] == "scale" else 1
     if loop > 1:
         start = "for(var it=0; it<%d; it++){ d=0; %s }" % (loop, start)
-    return "var d=0, A1=[1], A2=[1,2];\n%s\n%s\n\"done\";" % (decl, start)
+    site = cell.get("site", "top")
+    body = "%s\n%s" % (decl, start)
+    if site == "eval":
+        # the whole recursion (declarations included) lives in eval code: a nested interpreter
+        body = "eval(%s);" % json.dumps(body)
+    elif site == "eval2":
+        body = "eval(%s);" % json.dumps("eval(%s);" % json.dumps(body))
+    elif site == "newfn":
+        body = "new Function(%s)();" % json.dumps(body.replace("var d=0", "d=0"))
+    elif site == "function":
+        body = "(function(){ %s })();" % body
+    return "var d=0, A1=[1], A2=[1,2];\n%s\n\"done\";" % body
 
 
 def n_cases(tier):
@@ -162,7 +173,12 @@ def gen_case(seed, i, tier="quick"):
         stratum = "scale"
     else:
         stratum = "A"
-    cell = {"stratum": stratum, "shape": shape, "pend": pend, "try": tr}
+    cell = {"stratum": stratum, "shape": shape, "pend": pend, "try": tr,
+            "site": rng.choice(("top", "top", "top", "eval", "eval2", "newfn", "function"))}
+    if shape in ("closure", "arrow", "method", "getter", "setter", "valueOf", "newfn") and cell["site"] == "newfn":
+        cell["site"] = "eval"     # these shapes declare with var/object literals that need program scope
+    if shape in ("eval", "newfn") and cell["site"] in ("function", "newfn"):
+        cell["site"] = "eval2"    # their nested code refers to the recursive function as a global
     case = {"property": PROPERTY, "seed": seed, "index": i, "cell": cell,
             "world": {"tick": 1e-5, "epoch": round(rng.uniform(0, 1e5), 3)}, "T_work": None, "tracemalloc": False}
     if stratum == "scale":
@@ -219,7 +235,7 @@ def execute(case):
     res = {"outcome": out["kind"], "cls": out.get("cls"), "msg": out.get("msg"), "value": out.get("value"),
            "work": out["end_work"] - out["start_work"], "elapsed": out["end_now"] - out["start_now"], "T": T,
            "landing": landing(out.get("sites", [])), "n_probes": len(probes), "real_peak": peak,
-           "digest": W.digest()}
+           "digest": W.digest(), "bdigest": W.bdigest()}
     res["violations"] = judge(case, res)
     return res
 
@@ -267,6 +283,8 @@ def features(case, res=None):
         f.append("pend:" + cell["pend"])
     if cell.get("try", "none") != "none":
         f.append("try:" + cell["try"])
+    if cell.get("site", "top") != "top":
+        f.append("site:" + cell["site"])
     if case.get("T_work"):
         f.append("fault:deadline")
     if cell["stratum"] == "A":
@@ -298,7 +316,9 @@ def shrink_candidates(case):
         yield mk(**{"try": "none"})
     if cell["pend"] != "stmt":
         yield mk(pend="stmt")
-    if cell["shape"] != "self":
+    if cell.get("site", "top") != "top":
+        yield mk(site="top")
+    if cell["shape"] != "self" and cell.get("site", "top") in ("top", "eval", "eval2"):
         yield mk(shape="self")
     if cell["stratum"] == "scale":
         if cell.get("loop", 1) > 1:
@@ -317,7 +337,7 @@ def nontrivial_key(case, res):
     if cell["stratum"] == "A" and res["outcome"] not in ("limit_mem", "limit_time"):
         return None
     mb = len(str(case["M"]))
-    return "|".join([cell["stratum"], cell["shape"], cell["pend"], cell.get("try", "none"), str(mb), res["outcome"],
+    return "|".join([cell["stratum"], cell["shape"], cell["pend"], cell.get("try", "none"), cell.get("site", "top"), str(mb), res["outcome"],
                      res.get("landing", "")])
 
 
